@@ -38,9 +38,85 @@ type c15curators struct {
 	n    *int64
 	mu   sync.Mutex
 	ptrs map[core.TractKey]core.TractPointer // non-nil = RS mode
+	// curator-side fault oracle, armed for one client operation
+	cf     []c15cfault
+	ccalls map[int]int
+}
+
+// c15cfault: call 1 StatBlob, 2 GetTracts, 3 ExtendBlob, 4 AckExtendBlob, 5 master LookupPartition;
+// which 0/1 = the first/second such call of the operation fails, 9 = every one; ek 0 = ErrRPC (retriable), 1 = ErrInvalidState
+type c15cfault struct{ call, which, ek int }
+
+func (c *c15curators) fail(call int) core.Error {
+	c.mu.Lock()
+	defer c.mu.Unlock()
+	if c.cf == nil {
+		return core.NoError
+	}
+	k := c.ccalls[call]
+	c.ccalls[call] = k + 1
+	for _, f := range c.cf {
+		if f.call == call && (f.which == 9 || f.which == k) {
+			if f.ek == 0 {
+				return core.ErrRPC
+			}
+			return core.ErrInvalidState
+		}
+	}
+	return core.NoError
+}
+
+func (c *c15curators) armC(fs []c15cfault) {
+	c.mu.Lock()
+	c.cf, c.ccalls = fs, map[int]int{}
+	c.mu.Unlock()
+}
+
+func (c *c15curators) StatBlob(ctx context.Context, addr string, blob core.BlobID) (core.BlobInfo, core.Error) {
+	if e := c.fail(1); e != core.NoError {
+		return core.BlobInfo{}, e
+	}
+	return c.CuratorTalker.StatBlob(ctx, addr, blob)
+}
+
+func (c *c15curators) ExtendBlob(ctx context.Context, addr string, blob core.BlobID, numTracts int) ([]core.TractInfo, core.Error) {
+	if e := c.fail(3); e != core.NoError {
+		return nil, e
+	}
+	return c.CuratorTalker.ExtendBlob(ctx, addr, blob, numTracts)
+}
+
+func (c *c15curators) AckExtendBlob(ctx context.Context, addr string, blob core.BlobID, tracts []core.TractInfo) core.Error {
+	if e := c.fail(4); e != core.NoError {
+		return e
+	}
+	return c.CuratorTalker.AckExtendBlob(ctx, addr, blob, tracts)
+}
+
+type c15master struct {
+	MasterConnection
+	cur *c15curators
+}
+
+func (m *c15master) LookupPartition(ctx context.Context, partition core.PartitionID) (string, core.Error) {
+	if e := m.cur.fail(5); e != core.NoError {
+		return "", e
+	}
+	return m.MasterConnection.LookupPartition(ctx, partition)
+}
+
+func c15cfaultsWire(fs []c15cfault) []int64 {
+	out := []int64{int64(len(fs))}
+	for _, f := range fs {
+		out = append(out, int64(f.call), int64(f.which+10*f.ek))
+	}
+	return out
 }
 
 func (c *c15curators) GetTracts(ctx context.Context, addr string, blob core.BlobID, start, end int, forRead, forWrite bool) ([]core.TractInfo, core.Error) {
+	if e := c.fail(2); e != core.NoError {
+		return nil, e // a failed call is not counted
+	}
 	atomic.AddInt64(c.n, 1)
 	tracts, err := c.CuratorTalker.GetTracts(ctx, addr, blob, start, end, forRead, forWrite)
 	c.mu.Lock()
@@ -280,11 +356,11 @@ func c15newEnv(id string, cacheOn bool, repl int) *c15env {
 	e := &c15env{id: id, oposKnown: true, raKnown: true, repl: repl}
 	options := Options{DisableRetry: true, DisableCache: !cacheOn}
 	cli := newBaseClient(&options)
-	cli.master = newMemMasterConnection([]string{"1", "2", "3"})
 	e.memCu = newMemCuratorTalker().(*memCuratorTalker)
 	e.memTS = newMemTractserverTalker(e.tsTrace).(*memTractserverTalker)
 	e.cur = &c15curators{CuratorTalker: e.memCu, n: &e.rpcs}
 	e.tss = &c15tss{TractserverTalker: e.memTS}
+	cli.master = &c15master{MasterConnection: newMemMasterConnection([]string{"1", "2", "3"}), cur: e.cur}
 	cli.curators = e.cur
 	cli.tractservers = e.tss
 	e.cli = cli
@@ -611,7 +687,7 @@ func c15at(b []byte, i int64) byte {
 // a write that returns success is readable from EVERY replica; a failed write leaves every replica's bytes, inside the
 // written range, old or new (the claimed prefix new), outside it untouched, and the length between the old one and
 // max(old, off+len). Afterwards the same write is re-issued without faults so that all replicas agree again.
-func (e *c15env) writeAtF(off int64, rs []c15run, fs []c15wfault) {
+func (e *c15env) writeAtF(off int64, rs []c15run, fs []c15wfault, cfs []c15cfault) {
 	data := c15build(rs)
 	k := int64(len(data))
 	oldL := int64(len(e.oracle))
@@ -624,15 +700,22 @@ func (e *c15env) writeAtF(off int64, rs []c15run, fs []c15wfault) {
 		}
 		oldImg = append([]byte(nil), e.oracle[lo*c15TL:end]...)
 	}
+	if len(cfs) > 0 {
+		// no "maybe the wrong curator" retries: the partition lookup is not cached when the faulted operation starts
+		e.cli.lookupCache.invalidate(e.blob.id.Partition())
+		e.cur.armC(cfs)
+	}
 	e.armW(fs)
 	n, err := e.blob.WriteAt(data, off)
 	e.disarmW()
+	e.cur.armC(nil)
 	op := append([]int64{15, int64(e.repl), off}, c15runsWire(rs)...)
 	op = append(op, c15wfaultsWire(fs)...)
+	op = append(op, c15cfaultsWire(cfs)...)
 	e.emit(op, e.hdr(int64(n), err))
 	e.nwrites++
 	vw.Stat(fmt.Sprintf("faulted.write.err=%d", c15errClass(err)), 1)
-	det := map[string]interface{}{"off": off, "len": k, "n": n, "err": fmt.Sprint(err), "faults": fmt.Sprint(fs), "repl": e.repl, "blob_len_before": oldL}
+	det := map[string]interface{}{"off": off, "len": k, "n": n, "err": fmt.Sprint(err), "faults": fmt.Sprint(fs), "curator_faults": fmt.Sprint(cfs), "repl": e.repl, "blob_len_before": oldL}
 	hit := false
 	for _, f := range fs {
 		if int64(f.tract) >= lo && int64(f.tract) <= hi && f.replica < e.repl {
@@ -654,12 +737,21 @@ func (e *c15env) writeAtF(off int64, rs []c15run, fs []c15wfault) {
 			}
 			e.readAtKind("readback", off, k, rf)
 		}
+		// ... and the blob's length and seeking from the end agree with it
+		e.byteLength(false)
+		e.seek(0, c15SeekEnd)
 		return
 	}
-	if !core.ErrRPC.Is(err) {
-		e.report("writeat-unexpected-error", "a WriteAt under tractserver write faults failed with an error that was not injected", det)
+	injected := core.ErrRPC.Is(err)
+	for _, f := range cfs {
+		if f.ek == 1 && core.ErrInvalidState.Is(err) {
+			injected = true
+		}
 	}
-	if !hit {
+	if !injected {
+		e.report("writeat-unexpected-error", "a WriteAt under injected faults failed with an error that was not injected", det)
+	}
+	if !hit && len(cfs) == 0 {
 		e.report("writeat-spurious-error", "a WriteAt failed although no replica of any tract it writes was failing", det)
 	}
 	if n < 0 || int64(n) > k {
@@ -746,6 +838,62 @@ func (e *c15env) readAtKind(kind string, off, k int64, fs []c15fault) {
 	e.checkReadF(kind, off, p, n, err, fs)
 }
 
+func c15injected(err error, cfs []c15cfault) bool {
+	if err == nil {
+		return false
+	}
+	for _, f := range cfs {
+		if (f.ek == 0 && core.ErrRPC.Is(err)) || (f.ek == 1 && core.ErrInvalidState.Is(err)) {
+			return true
+		}
+	}
+	return false
+}
+
+func c15genCFault(r *vw.Rng, forRead bool) c15cfault {
+	call := r.PickInt(1, 2, 3, 3, 4, 4, 4, 5)
+	if forRead {
+		call = r.PickInt(1, 2, 2, 5)
+	}
+	return c15cfault{call, r.PickInt(0, 0, 1, 9), r.PickInt(0, 1)}
+}
+
+// readAtC / byteLengthC: the same calls while a curator-side fault is armed: they may fail with the injected error
+// (claiming nothing), otherwise they must be right
+func (e *c15env) readAtC(off, k int64, cfs []c15cfault) {
+	p := make([]byte, k)
+	c15fill(p, c15Dirty)
+	e.cli.lookupCache.invalidate(e.blob.id.Partition())
+	e.cur.armC(cfs)
+	n, err := e.blob.ReadAt(p, off)
+	e.cur.armC(nil)
+	if n < 0 || int64(n) > k {
+		n = 0
+	}
+	e.emit(append([]int64{17, off, k}, c15cfaultsWire(cfs)...), append(e.hdr(int64(n), err), c15rle(p[:n])...))
+	if c15injected(err, cfs) {
+		if n != 0 {
+			e.report("readat-count-with-curator-error", "a read that could not get the tract locations claims bytes", map[string]interface{}{"off": off, "len": k, "n": n, "err": fmt.Sprint(err)})
+		}
+		return
+	}
+	e.checkRead("readat", off, p, n, err)
+}
+
+func (e *c15env) byteLengthC(cfs []c15cfault) {
+	e.cli.lookupCache.invalidate(e.blob.id.Partition())
+	e.cur.armC(cfs)
+	n, err := e.blob.ByteLength()
+	e.cur.armC(nil)
+	e.emit(append([]int64{18}, c15cfaultsWire(cfs)...), e.hdr(n, err))
+	if c15injected(err, cfs) {
+		return
+	}
+	if err != nil || n != int64(len(e.oracle)) {
+		e.report("bytelength", "ByteLength differs from the furthest byte ever written", map[string]interface{}{"got": n, "want": len(e.oracle), "err": fmt.Sprint(err), "curator_faults": fmt.Sprint(cfs)})
+	}
+}
+
 func (e *c15env) genWFaults(r *vw.Rng, off, k int64) []c15wfault {
 	lo, hi := off/c15TL, (off+k-1)/c15TL
 	nf := r.PickInt(1, 1, 1, 2)
@@ -825,14 +973,23 @@ func (e *c15env) stepWriteFaults(r *vw.Rng) {
 			lo := off / c15TL
 			e.readAt(lo*c15TL, 10) // fills the tract cache (when on) for the first written tract
 		}
-		e.writeAtF(off, e.genData(r, off, k), e.genWFaults(r, off, k))
+		if r.Chance(1, 2) {
+			e.writeAtF(off, e.genData(r, off, k), e.genWFaults(r, off, k), nil)
+		} else {
+			e.writeAtF(off, e.genData(r, off, k), nil, []c15cfault{c15genCFault(r, false)})
+		}
 	case x < 65:
 		off, k := e.genWriteShape(r)
 		e.writeAt(off, e.genData(r, off, k))
-	case x < 80:
+	case x < 74:
 		off := e.genOffset(r, false)
 		e.readAt(off, e.genLen(r, off, false))
-	case x < 88:
+	case x < 82:
+		off := e.genOffset(r, false)
+		e.readAtC(off, e.genLen(r, off, false), []c15cfault{c15genCFault(r, true)})
+	case x < 86:
+		e.byteLengthC([]c15cfault{c15genCFault(r, true)})
+	case x < 90:
 		e.byteLength(false)
 	case x < 95:
 		e.setCache(r.Bool())
